@@ -105,6 +105,10 @@ pub fn preseal_melmint<C: ContentAddrStore>(state: UnsealedState<C>) -> Unsealed
     let state = process_deposits(state);
     assert!(state.pools.val_iter().count() >= 2);
     let state = process_withdrawals(state);
+    // A built-in pool can have been emptied just now (an ERG/SYM pool opened by a user before TIP-902 has no
+    // liquidity that nobody owns, so its holders can withdraw all of it): make it afresh before pegging and
+    // the block subsidy read its price.
+    let state = create_builtins(state);
     assert!(state.pools.val_iter().count() >= 2);
     process_pegging(state)
 }
